@@ -2,7 +2,7 @@
    Only statements here; every proof is [exact <lemma of Proofs/C15*.v>].
    extract_message_size / encode_length / read_ / write_extended_field_value are the definitions
    translated from tcp.py / options.py on every run (coq/Gen); the rest is Model/C15.v. *)
-From Verif Require Import Lib.Py Lib.Tactics Gen.options_ext Gen.tcp_framing Model.C15 Proofs.C15 Proofs.C15Gate Proofs.C15Total Proofs.C15Interleave.
+From Verif Require Import Lib.Py Lib.Tactics Gen.options_ext Gen.tcp_framing Model.C15 Model.C15Sys Proofs.C15 Proofs.C15Gate Proofs.C15Total Proofs.C15Interleave Proofs.C15Compose Proofs.C15Sys.
 Open Scope Z_scope.
 
 (* ---- RFC 8323 section 3.2 length coding *)
@@ -128,6 +128,112 @@ Theorem C15_no_exception_escapes : forall c d, bytes_ok (spool c) = true -> byte
 Proof. exact data_received_no_esc. Qed.
 Print Assumptions C15_no_exception_escapes.
 
+(* ---- compositions (round 5) *)
+(* clause 2 end to end: the frames of any sequence of requests / responses arriving after the CSM — in one
+   piece; by C15_framing_chunk_independent_exact in any segmentation — make the endpoint hand exactly these
+   messages to the token manager, in order, and leave the connection as it was *)
+Theorem C15_dispatches_exactly_sent : forall ms c bs s, remote_settings c = Some s -> spool c = [] -> closed c = false ->
+  Forall (plain_ok (my_max_message_size c)) ms -> frames ms = Ok bs ->
+  data_received c bs = (c, map dispatch_out ms).
+Proof. exact dispatches_exactly_sent. Qed.
+Print Assumptions C15_dispatches_exactly_sent.
+
+(* whatever follows a stream of good frames (any messages, signalling included, that leave the connection open) is
+   processed from the state those messages lead to, its outputs appended *)
+Theorem C15_after_good_prefix : forall ms c bs rest, spool c = [] -> closed c = false -> my_max_message_size c <= 2 ^ 40 ->
+  Forall (fun m => msg_ok m = true) ms -> Forall (fun m => fits (my_max_message_size c) m = true) ms ->
+  frames ms = Ok bs -> bytes_ok rest = true ->
+  closed (fst (process_messages c ms)) = false ->
+  snd (data_received c (bs ++ rest)) =
+  snd (process_messages c ms) ++ snd (data_received (fst (process_messages c ms)) rest) /\
+  spool (fst (process_messages c ms)) = [] /\
+  my_max_message_size (fst (process_messages c ms)) = my_max_message_size c.
+Proof. exact after_good_prefix. Qed.
+Print Assumptions C15_after_good_prefix.
+
+(* clauses 5 / 6 at ANY position of the stream: an oversized announcement, or a complete frame that does not
+   parse, after any number of good messages: their outputs, then exactly Abort + close *)
+Theorem C15_abort_after_good_prefix_oversize : forall ms c bs bad a t l, spool c = [] -> closed c = false ->
+  my_max_message_size c <= 2 ^ 40 ->
+  Forall (fun m => msg_ok m = true) ms -> Forall (fun m => fits (my_max_message_size c) m = true) ms ->
+  frames ms = Ok bs -> bytes_ok bad = true -> closed (fst (process_messages c ms)) = false ->
+  header bad = Some (a, t, l) -> a + t + l > my_max_message_size c ->
+  snd (data_received c (bs ++ bad)) = snd (process_messages c ms) ++ [Write (abort_frame txt_overly_large); Close].
+Proof. exact abort_after_good_prefix_oversize. Qed.
+Print Assumptions C15_abort_after_good_prefix_oversize.
+Theorem C15_abort_after_good_prefix_unparsable : forall ms c bs bad f r, spool c = [] -> closed c = false ->
+  my_max_message_size c <= 2 ^ 40 ->
+  Forall (fun m => msg_ok m = true) ms -> Forall (fun m => fits (my_max_message_size c) m = true) ms ->
+  frames ms = Ok bs -> bytes_ok bad = true -> closed (fst (process_messages c ms)) = false ->
+  view_of (my_max_message_size c) bad = VFrame f r -> decode_message f = Raise UnparsableMessage ->
+  snd (data_received c (bs ++ bad)) = snd (process_messages c ms) ++ [Write (abort_frame txt_failed_to_parse); Close].
+Proof. exact abort_after_good_prefix_unparsable. Qed.
+Print Assumptions C15_abort_after_good_prefix_unparsable.
+
+(* ---- the token-interface entry for outgoing messages, _TCPPooling.send_message (round 5) *)
+Theorem C15_send_message_masked : forall c m, no_response_masked m = true -> pool_send_message c m = (c, [], true).
+Proof. exact pool_send_masked. Qed.
+Print Assumptions C15_send_message_masked.
+Theorem C15_send_message_unmasked : forall c m, no_response_masked m = false ->
+  pool_send_message c m = send_message c (strip_no_response m) /\
+  Forall (fun o => fst o <> 258) (option_list (opts (strip_no_response m))) /\
+  code (strip_no_response m) = code m /\ token (strip_no_response m) = token m /\ payload (strip_no_response m) = payload m.
+Proof. exact pool_send_unmasked. Qed.
+Print Assumptions C15_send_message_unmasked.
+
+(* ---- clause 9 beyond the connection: pool and token manager (Model/C15Sys.v, round 5) *)
+(* the exception handed to the requests is a NetworkError: RemoteServerShutdown as it is, None wrapped *)
+Theorem C15_failure_is_network_error : forall x, delivered_is_network (tm_wrap x) = true.
+Proof. exact tm_wrap_network. Qed.
+Print Assumptions C15_failure_is_network_error.
+
+(* the peer's Release / Abort: exactly one NetworkError for every request outstanding on that connection, in table
+   order, then close; these requests leave the table, the connection leaves the pool, everything else is untouched *)
+Theorem C15_peer_close_fails_pending : forall s id c m, code m = RELEASE \/ code m = ABORT -> has_critical (opts m) = false ->
+  let k := if code m =? RELEASE then PeerReleased else PeerAborted in
+  route_all id (snd (fst (handle_message c m))) s =
+  ({| conns := conns s; pool := filter (fun i => negb (i =? id)) (pool s);
+      outgoing := filter (fun r => negb (r_remote r =? id)) (outgoing s) |},
+   map (fun r => SFail (r_token r) id (DAsIs (XShutdown k))) (filter (fun r => r_remote r =? id) (outgoing s)) ++ [SConn id Close]).
+Proof. exact peer_close_fails_pending. Qed.
+Print Assumptions C15_peer_close_fails_pending.
+
+(* in general: whenever a connection reports the peer's Release / Abort or its loss anywhere among its outputs, every
+   request that was outstanding on it has got a terminal event (its final response if that came first, else a
+   NetworkError), none stays in the table, the connection is out of the pool, other connections' requests are untouched *)
+Theorem C15_dead_connection_fails_pending : forall os id s k, In (DispatchError k) os ->
+  let '(s1, x) := route_all id os s in
+  (forall r, In r (outgoing s) -> r_remote r = id -> terminal id r x) /\
+  (forall r, In r (outgoing s1) -> r_remote r <> id) /\ ~ In id (pool s1) /\
+  filter (other id) (outgoing s1) = filter (other id) (outgoing s) /\
+  (forall i, i <> id -> In i (pool s) -> In i (pool s1)) /\
+  (forall t i d, In (SFail t i d) x -> i = id /\ delivered_is_network d = true).
+Proof. exact dead_connection_fails_pending. Qed.
+Print Assumptions C15_dead_connection_fails_pending.
+
+(* ... for bytes arriving on a pooled connection, and for connection_lost (which is also what ends the requests
+   after the endpoint's OWN Abort: asyncio calls connection_lost after close()) *)
+Theorem C15_data_with_peer_close_fails_pending : forall s id c d k, get_conn id (conns s) = Some c -> closed c = false ->
+  In (DispatchError k) (snd (data_received c d)) ->
+  let '(s1, x) := sys_step s (PData id d) in
+  (forall r, In r (outgoing s) -> r_remote r = id -> terminal id r x) /\
+  (forall r, In r (outgoing s1) -> r_remote r <> id) /\ ~ In id (pool s1) /\
+  filter (other id) (outgoing s1) = filter (other id) (outgoing s).
+Proof. exact sys_step_data_dead. Qed.
+Print Assumptions C15_data_with_peer_close_fails_pending.
+Theorem C15_connection_lost_fails_pending : forall s id,
+  let '(s1, x) := sys_step s (PLost id) in
+  (forall r, In r (outgoing s) -> r_remote r = id -> terminal id r x) /\
+  (forall r, In r (outgoing s1) -> r_remote r <> id) /\ ~ In id (pool s1) /\
+  filter (other id) (outgoing s1) = filter (other id) (outgoing s).
+Proof. exact sys_step_lost_dead. Qed.
+Print Assumptions C15_connection_lost_fails_pending.
+Theorem C15_release_abort_frames : forall c, spool c = [] -> 2 <= my_max_message_size c ->
+  snd (data_received c [0; 228]) = [DispatchError PeerReleased; Close] /\
+  snd (data_received c [0; 229]) = [DispatchError PeerAborted; Close].
+Proof. exact release_frame. Qed.
+Print Assumptions C15_release_abort_frames.
+
 (* ---- per message: dispatch, CSM gate, empty, Ping/Pong, Release/Abort *)
 Theorem C15_dispatch_exact : forall c m s, remote_settings c = Some s -> is_signalling (code m) = false -> code m <> 0 ->
   handle_message c m = (c, [if is_response (code m) then Response m else Request m], Continue).
@@ -238,3 +344,18 @@ Example C15_no_activity_after_own_abort :
     ({| spool := [0; 1]; remote_settings := Some {| max_message_size := None; block_wise_transfer := false |};
         my_max_message_size := 1048576; closed := true |}, [Write b; Close]).
 Proof. eexists. vm_compute. reflexivity. Qed.
+
+(* round 5: two requests on connection 0 (one answered in the same segment as the Release), one on connection 1 *)
+Example C15_pending_example :
+  let tA := [1] in let tB := [2] in let tC := [3] in
+  let r := sys_run sys0 [PRequest 0 tA false; PRequest 1 tB false; PRequest 0 tC false;
+                         PData 0 ([33; 69; 1; 255; 111] ++ [0; 228])] in
+  pool (fst r) = [1] /\ outgoing (fst r) = [{| r_token := tB; r_remote := 1; r_observe := false |}] /\
+  skipn 3 (snd r) = [SResponse tA 0 69 true; SFail tC 0 (DAsIs (XShutdown PeerReleased)); SConn 0 Close].
+Proof. vm_compute. repeat split; reflexivity. Qed.
+(* round 5: No-Response 0x02 masks a 2.05 but not a 4.04; the option never goes on the wire *)
+Example C15_no_response_example :
+  no_response_masked {| code := 69; token := []; opts := [(258, [2])]; payload := [] |} = true /\
+  pool_send_message ex_conn {| code := 132; token := [9]; opts := [(258, [2]); (12, [])]; payload := [] |}
+  = (ex_conn, [Write [17; 132; 9; 192]], true).
+Proof. vm_compute. split; reflexivity. Qed.
